@@ -290,6 +290,13 @@ def apply_op(R, g, m, op):
         g.demote_block(nm if len(nm) > 1 else nm[0])
         for n in nm:
             b = m.byname(n); m.blocks.remove(b); m.blocks.append(b)
+        if len(set(idx)) < len(idx):
+            # with a repeated name only "the named blocks end up last" is documented, not their mutual order: take the
+            # grid's order for them if it is an arrangement of the same blocks
+            kk = len(m.blocks) - len(set(nm))
+            tail = [b.name for b in g.blocklist[kk:]]
+            if sorted(tail) == sorted(set(nm)) and len(g.blocklist) == len(m.blocks):
+                m.blocks = m.blocks[:kk] + [m.byname(n) for n in tail]
     elif k == 'clean_rocktypes':
         g.clean_rocktypes()
         m.rocks = [r for r in m.rocks if any(b[2] == r for b in m.blocks)]
